@@ -37,6 +37,7 @@ type Contract struct {
 	Pkg      string // package path suffix: "http2" or "http2utils"
 	Func     string // e.g. "readInt", "(*HPACK).peek", "(*serverConn).handleStreams$1"
 	Props    []string
+	Routes   map[string][]string // clause label -> the properties its obligations count for (default: all of Props)
 	Mode     string
 	Opts     map[string]string
 	Requires []Clause
@@ -237,6 +238,16 @@ func ParseContracts(files map[string]string) (*ContractSet, error) {
 			switch word {
 			case "props":
 				cur.Props = strings.Fields(rest)
+			case "route":
+				// route <label> <property>...: obligations of the clause with this label count only for these properties
+				f := strings.Fields(rest)
+				if len(f) < 2 {
+					return nil, fmt.Errorf("%s:%d: route needs a label and properties", file, ln)
+				}
+				if cur.Routes == nil {
+					cur.Routes = map[string][]string{}
+				}
+				cur.Routes[f[0]] = f[1:]
 			case "mode":
 				cur.Mode = rest
 			case "opt":
